@@ -7,6 +7,7 @@ import (
 	"go/ast"
 	"go/token"
 	"go/types"
+	"sort"
 	"strings"
 )
 
@@ -212,6 +213,13 @@ func (u *Unit) libraryCall(c *ast.CallExpr, fun ast.Expr, env *Env) ([]Outcome, 
 		v := argv(0)
 		k := u.rkind(v.Term)
 		return ret(env, Value{Ite(Same(k, IntLit(kPtr)), u.relem(env, v.Term), v.Term), u.Info.TypeOf(c)}), true
+	case "reflect.Value.FieldByName":
+		// the field as an uninterpreted function of the struct value and the name (the zero Value when there is no such field)
+		u.useReflect = true
+		v := recvv()
+		u.safety(env, "pre", c.Pos(), "reflect.Value.FieldByName on "+u.exprText(fun.(*ast.SelectorExpr).X), Same(u.rkind(v.Term), IntLit(kStruct)))
+		u.D.Trust("reflect: Value.FieldByName panics unless Kind is Struct; the field is a function of the struct value and the name")
+		return ret(env, Value{u.rfield(v.Term, argv(0).Term), u.Info.TypeOf(c)}), true
 	case "reflect.Value.String":
 		// the underlying string of a string-kinded value; some description of the value otherwise (never panics)
 		u.useReflect = true
@@ -423,6 +431,32 @@ func (u *Unit) libraryCall(c *ast.CallExpr, fun ast.Expr, env *Env) ([]Outcome, 
 	case "sync.RWMutex.RUnlock":
 		u.lockOp(env, fun.(*ast.SelectorExpr).X, "R", false, c)
 		return ret(env), true
+	// sync.WaitGroup: Add / Done / Wait are events 8 / 9 / 10 of the trace (per-goroutine view; the join itself - Wait returns
+	// only after the matching Done calls - is the library's, trusted).  At Done the "ensures@done" clauses of the unit are
+	// proved (what the signalling goroutine publishes must hold when it signals, not merely when it returns); at Wait every
+	// local that a function literal created in this activation assigns becomes unknown (the joined goroutine may have run).
+	case "sync.WaitGroup.Add":
+		n := u.box(argv(0))
+		u.emit(env, 8, Term{}, n.Term, Term{}, Term{})
+		return ret(env), true
+	case "sync.WaitGroup.Done":
+		if u.Block != nil {
+			for k, cl := range u.Block.Of("ensures@done") {
+				label := cl.Label
+				if label == "" {
+					label = fmt.Sprintf("done%d", k)
+				}
+				sc := *u.ownCtx
+				u.assert(env, "done/"+label, "post", c.Pos(), cl.Text, u.specExprCtx(cl, env, &sc))
+			}
+		}
+		u.emit(env, 9, Term{}, Term{}, Term{}, Term{})
+		return ret(env), true
+	case "sync.WaitGroup.Wait":
+		u.emit(env, 10, Term{}, Term{}, Term{}, Term{})
+		u.D.Trust("sync.WaitGroup: Wait returns only after the Done calls it was told to expect (Add); what the signalling goroutines wrote before Done is visible afterwards")
+		u.havocLitAssigned(env, nil)
+		return ret(env), true
 	case "sync.Pool.Get":
 		// an object not currently reachable from the structure, or a fresh one from New
 		r := u.alloc(env, "poolobj")
@@ -560,6 +594,11 @@ func constInt(u *Unit, e ast.Expr) (int64, bool) {
 		return 0, false
 	}
 	return n, true
+}
+
+func (u *Unit) rfield(v, name Term) Term {
+	u.D.Fun("rfield", SVal, SVal, SStr)
+	return App("rfield", SVal, v, name)
 }
 
 func (u *Unit) relem(env *Env, v Term) Term {
@@ -765,19 +804,82 @@ func (u *Unit) fieldCell(e ast.Expr, env *Env) (Term, string) {
 // ---------------------------------------------------------------------------------------------
 // locks (ghost: which locks this activation holds and in which mode)
 
+// the identity of a lock x.f: the object x denotes (so that a helper that locks its own receiver and the closure of its caller
+// that touches the same object agree whatever the two variables are called), else the expression text
+func (u *Unit) lockKey(lockExpr ast.Expr, env *Env) string {
+	if se, ok := unparen(lockExpr).(*ast.SelectorExpr); ok {
+		return u.baseKey(se.X, env) + "." + se.Sel.Name
+	}
+	return u.exprText(lockExpr)
+}
+
+func (u *Unit) baseKey(x ast.Expr, env *Env) string {
+	if id, ok := unparen(x).(*ast.Ident); ok {
+		if obj := u.Info.Uses[id]; obj != nil {
+			if t, ok := env.vars[obj]; ok && t.Sort == SRef {
+				return "@" + t.S
+			}
+		}
+	}
+	return u.exprText(x)
+}
+
+// locals of the running function that a function literal created in this activation assigns: after a point at which such a
+// literal may have run elsewhere (a join, or a callee that was handed the literal) their values are unknown
+func (u *Unit) havocLitAssigned(env *Env, only map[string]bool) {
+	var keys []string
+	for k := range u.knownLits {
+		keys = append(keys, k)
+	}
+	sort.Strings(keys)
+	for _, k := range keys {
+		li := u.knownLits[k]
+		if li == nil || li.lit == nil || (only != nil && !only[k]) {
+			continue
+		}
+		ast.Inspect(li.lit.Body, func(n ast.Node) bool {
+			var lhs []ast.Expr
+			switch st := n.(type) {
+			case *ast.AssignStmt:
+				if st.Tok != token.DEFINE {
+					lhs = st.Lhs
+				}
+			case *ast.IncDecStmt:
+				lhs = []ast.Expr{st.X}
+			}
+			for _, l := range lhs {
+				id, ok := unparen(l).(*ast.Ident)
+				if !ok {
+					continue
+				}
+				v, ok := li.info.Uses[id].(*types.Var)
+				if !ok || (v.Pos() >= li.lit.Pos() && v.Pos() <= li.lit.End()) {
+					continue
+				}
+				if cur, ok := env.vars[v]; ok {
+					nv := u.D.Fresh("joined_"+v.Name(), cur.Sort)
+					u.typeInvariant(env, nv, v.Type())
+					env.vars[v] = nv
+				}
+			}
+			return true
+		})
+	}
+}
+
 func (u *Unit) lockOp(env *Env, lockExpr ast.Expr, mode string, acquire bool, at ast.Node) {
 	u.usesLocks = true
-	key := u.exprText(lockExpr)
+	key := u.lockKey(lockExpr, env)
 	if acquire {
 		if cur, ok := env.held[key]; ok {
-			u.assert(env, "perm/lock-not-reentrant/"+key, "perm", at.Pos(), key+" acquired while held "+cur, False)
+			u.assert(env, "perm/lock-not-reentrant/"+u.exprText(lockExpr), "perm", at.Pos(), u.exprText(lockExpr)+" acquired while held "+cur, False)
 		}
 		env.held[key] = mode
 		return
 	}
 	cur, ok := env.held[key]
 	okT := boolTerm(ok && cur == mode)
-	u.assert(env, "perm/unlock-matches/"+key, "perm", at.Pos(), "release of "+key+" matches its acquire mode", okT)
+	u.assert(env, "perm/unlock-matches/"+u.exprText(lockExpr), "perm", at.Pos(), "release of "+u.exprText(lockExpr)+" matches its acquire mode", okT)
 	delete(env.held, key)
 	for k := range env.held {
 		if strings.HasPrefix(k, "decided:") && strings.HasSuffix(k, "@"+key) {
